@@ -357,8 +357,28 @@ func (g *TG) option(t reflect.Type) string {
 
 // Top generates a top-level type: usually a struct, sometimes a library type,
 // and in configurations without ProtoArrays sometimes a bare container or scalar
+// Chain builds levels structs nested by value, each with a field before and after the nested one:
+// deeper than any fixed-size per-level state a walker may keep
+func (g *TG) Chain(levels int) reflect.Type {
+	t := reflect.StructOf([]reflect.StructField{{Name: "V", Type: reflect.TypeOf(int32(0)), Tag: `plenc:"1"`}})
+	for i := 0; i < levels; i++ {
+		mid := t // (by value: the value generator stops at pointers and slices beyond depth 12)
+		t = reflect.StructOf([]reflect.StructField{
+			{Name: "A", Type: reflect.TypeOf(int8(0)), Tag: `plenc:"1"`},
+			{Name: "N", Type: mid, Tag: `plenc:"2"`},
+			{Name: "Z", Type: reflect.TypeOf(""), Tag: `plenc:"3"`},
+		})
+	}
+	return t
+}
+
 func (g *TG) Top(depth int) reflect.Type {
 	n := g.R.IntN(20)
+	if g.MaxFields == 0 && g.R.IntN(40) == 0 {
+		if t := g.Chain([]int{31, 32, 33, 34, 40, 63, 64, 65, 70}[g.R.IntN(9)]); g.C.Validate(t, "") == "" {
+			return t
+		}
+	}
 	switch {
 	case n < 3 && g.Lib:
 		for i := 0; i < 20; i++ {
